@@ -55,7 +55,7 @@ Guarded == GStartAuth \/ GStartProtect \/ GStartRead \/ GStartWrite \/ GStartNde
            \/ GSReadState \/ GNPwd \/ GRRead \/ GCheck \/ GFlipData \/ GFlipMac \/ GSwap \/ GPad \/ GCount \/ GReplay
            \/ GOther \/ GReturn
 
-Logged == Ev.a \in {"AReadId", "SReadState", "RRead"} \/ (Ev.a = "NPwd" /\ resp'.k = "data")
+Logged == (Ev.a \in {"AReadId", "SReadState", "RRead"} /\ resp'.hm) \/ (Ev.a = "NPwd" /\ resp'.k = "data")
 HistOk == hl' = IF Logged THEN Append(hl, resp') ELSE hl
 
 InvNames == <<"ResultTyped", "AuthSound", "AuthComplete", "ProtectKey", "ProtectThenAuth",
